@@ -10,6 +10,7 @@ import random
 
 from ..common import Result, sut, SutRaised, MonitorAlarm, digest
 from ..taps import RandomTap, installed
+from ..interfere import interfere
 
 ID = "C20"
 RULE = ("histories of add/remove/remove-absent/add-present/draw/contains/len/iterate over universes of 1..9 (15% of int/str universes: 17..70) "
@@ -186,6 +187,7 @@ def _one_history(rng, res, DrawSet):
     # membership) are made after every operation, in the other half only now and then, so that several mutations pass unobserved
     # between two looks (an implementation that refreshes a view only when it notices a change is found there)
     sparse = rng.random() < 0.5
+    interfered = rng.random() < 0.4
     res.count("histories_observed_sparsely" if sparse else "histories_observed_after_every_operation")
 
     def compare(after):
@@ -261,6 +263,9 @@ def _one_history(rng, res, DrawSet):
             elif op == "draw":
                 if not M:
                     continue
+                if interfered and rng.random() < 0.7:
+                    # the caller measures something else with the library between two draws (a percolation run, a cover, a generation)
+                    interfere(rng, tap, res, only=("bond_percolate", "MPCC", "GCMAlgorithmFast", "EECC"), k=1)
                 for _ in range(x):
                     d = sut("draw", D.draw)
                     res.count("draws")
@@ -310,7 +315,9 @@ def _one_history(rng, res, DrawSet):
                 else:
                     res.count("draw_hook_not_recognised")
                 seen = set()
-                for _ in range(60 * n):
+                for it in range(60 * n):
+                    if interfered and it % 3 == 0:
+                        interfere(rng, tap, None, only=("bond_percolate", "MPCC"), k=1)
                     d = sut("draw", D.draw); res.count("draws")
                     if d not in M:
                         res.violate("draw-returned-non-member", after=k, got=d, ops=ops); return
